@@ -38,7 +38,8 @@ class C10(Property):
             "executed on real containers.  A run is non-trivial when at "
             "least one operation failed (fault) after at least one "
             "successful mutation; distinct = distinct event-log digests "
-            "(operation sequence with arguments and outcomes) among those.")
+            "(operation sequence with arguments and outcomes) among those."
+            " Argument forms: pairs, tuples, lists, mappings, keyword arguments, other multi-dicts, one-shot iterators, items()-objects, positional and keyword arguments mixed; the three views obtained when a container was created are kept and re-read; what getall() returns is changed by the caller before the container is read again; the class of every container is compared.")
     ASSUMPTIONS = [
         "the reading of 'as documented' is the list-of-pairs model in "
         "sim/listmodel.py (assignment replaces first and drops later, "
